@@ -18,6 +18,7 @@ import time
 from harness import common
 from harness.common import Run, coq_list
 from harness.translate import graphs as tgraphs
+from harness.translate import c15_fromdict as tfromdict
 
 META = dict(
     technique="Coq theorems (loop invariant of Kahn's algorithm with the path matrix; pigeonhole for completeness) about an executable "
@@ -38,6 +39,9 @@ META = dict(
 OBLIGATIONS = [
     "C15_topological", "C15_exact", "C15_refuses", "C15_accepts", "C15_error_meaning", "C15_no_model_artefact",
     "C15_deterministic", "C15_set_order_irrelevant", "C15_direct_children", "C15_shipped_graphs",
+    # extension 4: from the definitions (from_dict / get_named_parameters / then / key-set check) to the graph
+    "C15_named_parameters", "C15_from_dict_edges", "C15_from_dict_refuses_signature", "C15_from_dict_refuses_unknown",
+    "C15_then_keeps_parents", "C15_from_dict_closures", "C15_from_dict_params_only", "C15_key_set_check", "C15_from_dict_source",
 ]
 
 HDR = "From Coq Require Import List.\nFrom Leaspy Require Import Dag.DagModel.\nImport ListNotations.\n"
@@ -49,7 +53,8 @@ _GRAPHS_CACHE: dict = {}
 def translate(run: Run) -> bool:
     gs = tgraphs.write_gen(run)
     _GRAPHS_CACHE["graphs"] = gs
-    return gs is not None
+    ok_fd = tfromdict.translate(run)
+    return gs is not None and ok_fd
 
 
 # ----------------------------------------------------------------------------- independent oracle
